@@ -23,12 +23,18 @@ MAIN (each in the general form — any start game, hypotheses `GameOK K start` /
 standard initial position `Board.ofBuilder K stdBuilder = .ok b0`, the formulation of `C10_ofPgn_no_panic`):
 
 1. `C15_import_reach`, `C15_import_reach_ok`, `C15_import_reach_std`
-2. `C15_import_tokens`, `C15_import_tokens_std`; all tokens are consumed (`ms.length = (findMoves sec).length`); what happens
-   after the game has ended by itself: `C15_import_finished_stops`, `C15_import_failure`, `C15_import_before_last`
-3. `C15_import_token_unique`, `C15_import_complete`, `C15_import_unique`
-4. `C15_import_result`, `C15_import_result_std`
+2. `C15_import_tokens`, `C15_import_tokens_ofBoard`, `C15_import_tokens_std`; all tokens are consumed
+   (`ms.length = (findMoves sec).length`); what happens after the game has ended by itself: `C15_import_finished_stops`,
+   `C15_import_before_last`, `C15_import_early_end_fails`; every failure: `C15_import_failure` (loop), `C15_import_error`
+3. `C15_import_token_unique`, `C15_import_complete`, `C15_import_moves_unique`, `C15_import_unique`, `C15_import_unique_ok`
+4. `C15_import_result`, `C15_import_result_ok`, `C15_import_result_std`
 5. `C15_import_rules`, `C15_import_rules_std`, `C15_import_sanLine`, `C15_import_sanLine_std`
-6. non-vacuity: the last section. -/
+6. non-vacuity: the last section (`C15_import_sample`: a non-export text imported from the standard start for EVERY key table).
+
+Structure of the proofs: `ofPgnRegex_ok_iff` (success ⇔ section + loop + tail), `replaySan_tokenPlay` (soundness of the loop, any
+game value), `TokenPlay.replay` (completeness of the loop from a `GameOK` game: C14 uniqueness), `C15Import.findResult_values`
+(the result pattern reports one of its three words, so the fourth branch of the tail is dead).  Nothing is assumed; nothing is
+partial. -/
 namespace Chess
 open Chess.Game Chess.C13 Chess.PgnRegex Board
 
@@ -1090,24 +1096,25 @@ theorem C15_import_sanLine_std (b0 : Board) (h0 : Board.ofBuilder K stdBuilder =
 A text that is NOT an export of the library is imported successfully from the standard initial position, for EVERY key table;
 the hypotheses of all the theorems above hold for it, and their conclusions are the expected concrete facts. -/
 section nonvacuity
+open C15Import
 
 /-- not an export: a single tag, three line breaks, no space after the move number, runs of spaces, a trailing line break -/
-def sampleText : Str := "[Event \"x\"]\n\n\n 1.e4   1-0\n".toList
+def C15Import.sampleText : Str := "[Event \"x\"]\n\n\n 1.e4   1-0\n".toList
 /-- its moves section -/
-def sampleSection : Str := " 1.e4   1-0\n".toList
+def C15Import.sampleSection : Str := " 1.e4   1-0\n".toList
 
-theorem sampleText_section : regexMovesSection sampleText = some sampleSection := by decide +kernel
-theorem sampleSection_moves : findMoves sampleSection = ["e4".toList] := by decide +kernel
-theorem sampleSection_result : findResult sampleSection = some "1-0".toList := by decide +kernel
+theorem C15Import.sampleText_section : regexMovesSection sampleText = some sampleSection := by decide +kernel
+theorem C15Import.sampleSection_moves : findMoves sampleSection = ["e4".toList] := by decide +kernel
+theorem C15Import.sampleSection_result : findResult sampleSection = some "1-0".toList := by decide +kernel
 
 /-- `1. e4` -/
-abbrev e4 : Move := .piece .pawn 12 28 none
+abbrev C15Import.e4 : Move := .piece .pawn 12 28 none
 
-theorem std_e4_spec_legal (b0 : Board) (h0 : Board.ofBuilder K stdBuilder = .ok b0) : Spec.legal b0.absPos e4 = true := by
+theorem C15Import.std_e4_spec_legal (b0 : Board) (h0 : Board.ofBuilder K stdBuilder = .ok b0) : Spec.legal b0.absPos e4 = true := by
   rw [(stdBoard_facts K b0 h0).2.2]; decide +kernel
 
 /-- the text the library prints for `1. e4` in the standard initial position is `e4` -/
-theorem std_e4_sanText (b0 : Board) (h0 : Board.ofBuilder K stdBuilder = .ok b0) (mp : MoveProps)
+theorem C15Import.std_e4_sanText (b0 : Board) (h0 : Board.ofBuilder K stdBuilder = .ok b0) (mp : MoveProps)
     (hmp : b0.moveProps K e4 = .ok mp) : sanText e4 mp = "e4".toList := by
   obtain ⟨hv, _, habs⟩ := stdBoard_facts K b0 h0
   obtain ⟨_, hc, hm, hx, ha⟩ := moveProps_inv K b0 _ mp hmp
@@ -1118,7 +1125,7 @@ theorem std_e4_sanText (b0 : Board) (h0 : Board.ofBuilder K stdBuilder = .ok b0)
   rw [sanText_piece, ← hs, hsuf, hcap, hamb]; decide
 
 /-- after `1. e4` the game is ongoing -/
-theorem std_e4_game (b0 : Board) (h0 : Board.ofBuilder K stdBuilder = .ok b0) :
+theorem C15Import.std_e4_game (b0 : Board) (h0 : Board.ofBuilder K stdBuilder = .ok b0) :
     ∃ g₁, (ofBoard b0).act K (.move e4) = .ok g₁ ∧ g₁.status = .ongoing := by
   obtain ⟨hv, _, habs⟩ := stdBoard_facts K b0 h0
   have hs := stdGame_ongoing K b0 h0
@@ -1207,6 +1214,12 @@ example (g : Game) (hs : g.status = .checkMated .black) (tok : Str) (rest : List
   cases (sanCands K g tok).getLast? with
   | none => exact ⟨_, rfl, Or.inl rfl⟩
   | some m => exact ⟨_, rfl, Or.inr rfl⟩
+
+/-- the result word is ignored once the moves have ended the game: a replay that ends in mate is returned as it is, even
+under the word `0-1` -/
+example (start g₁ : Game) (toks : List Str) (hr : replaySan K start toks = .ok g₁) (hs : g₁.status = .checkMated .black) :
+    Game.importOf K start toks (some "0-1".toList) = .ok g₁ :=
+  (ImportTail.finished (some "0-1".toList) (by rw [hs]; exact GStatus.noConfusion)).importOf K hr
 
 end nonvacuity
 
